@@ -1225,7 +1225,15 @@ func (in *Interp) evalCall(st *State, call *ast.CallExpr, stmt bool) *T {
 						}
 					}
 				}
-				if agree && !flagged && (len(rets) == 1 || len(rets[0].Eff) == len(st.Eff)) {
+				// several returning paths are merged only when none of them has an effect of its own
+				// (otherwise the call stays opaque: dropping one path's effects would be unsound)
+				pure := true
+				for _, r := range rets {
+					if len(r.Eff) != len(st.Eff) {
+						pure = false
+					}
+				}
+				if agree && !flagged && (len(rets) == 1 || pure) {
 					r0 := rets[0]
 					// adopt the callee's effects on shared state
 					st.Mem, st.Eff, st.X = r0.Mem, r0.Eff, r0.X
